@@ -262,6 +262,7 @@ KEYMAPS = [
     ('raw', dict()), ('raw', dict(typed=True)), ('raw', dict(sentinel=True)), ('raw', dict(flat=False)), ('raw', dict(flat=False, typed=True)),
     ('string', dict()), ('string', dict(typed=True)), ('string', dict(flat=False)), ('string', dict(sentinel=True, typed=True)),
     ('md5', dict(sentinel=True)), ('string', dict(sentinel=True)), ('pickle', dict(sentinel=True)),
+    ('picklep', dict()), ('picklep', dict(typed=True)),       # picklemap(serializer='pickle'): real pickle byte strings
     ('pickle', dict()), ('pickle', dict(flat=False, typed=True)), ('md5', dict()), ('md5', dict(typed=True, sentinel=True)), ('sha1', dict(flat=False)),
     # chained keymaps `inner + outer` (the options outside `_inner` are the OUTER keymap's, which builds the first structured key)
     ('chain', dict(typed=True, _outer_kind='md5', _inner=['string', {}])),
@@ -281,6 +282,7 @@ def make_km(kind, opts):
     if kind == 'raw': return keymap(**o)
     if kind == 'string': return stringmap(**o)
     if kind == 'pickle': return picklemap(**o)
+    if kind == 'picklep': return picklemap(serializer='pickle', **o)
     return hashmap(algorithm=kind, **o)
 
 
@@ -288,6 +290,7 @@ def encoder(kind):
     if kind == 'raw': return lambda o: o
     if kind == 'string': return str
     if kind == 'pickle': return repr
+    if kind == 'picklep': return lambda o: __import__('pickle').dumps(o)
     return lambda o: hashlib.new(kind, repr(o).encode()).hexdigest()
 
 
